@@ -96,7 +96,7 @@ def run_group(g, gid):
              w, wref, A + same_branch, cases=gfi.check_cases(ref_old))
         if spec.kind == "none":
             g.eq(f"regenerate{tag}: empty selection, unchanged args: weight 0", w, sj.obj(sj.RV(0)),
-                 A + [solve.eq_trees((tuple(args_s), kw_s), (tuple(a_old), dict(kw_old)))])
+                 A + [solve.eq_trees((rs.recorded_args(case.prog, tuple(args_s)), kw_s), (tuple(a_old), dict(kw_old)))])
         if spec.kind == "all":
             g.eq(f"regenerate{tag}: everything selected: weight 0", w, sj.obj(sj.RV(0)), A + same_branch)
         old_vis = ref_old.get_choices()
